@@ -383,6 +383,13 @@ func runConditionsStruct(c *Ctx, n int, timeFocus bool) {
 			dnoa = offs[r.Intn(len(offs))]
 		}
 		nb, noa := now.Add(dnb), now.Add(dnoa)
+		if r.Intn(12) == 0 {
+			// the instant Go's zero time.Time denotes is an instant like any other: a window that ended in year 1 has ended
+			noa = time.Date(1, 1, 1, 0, 0, 0, 0, time.UTC)
+			if r.Intn(2) == 0 {
+				nb = noa
+			}
+		}
 		cond.NotBefore, cond.NotOnOrAfter = renderInstant(r, nb), renderInstant(r, noa)
 		expectTime := now.Before(nb) || !now.Before(noa) // half-open [nb, noa)
 		expectErr := ""
